@@ -35,7 +35,13 @@ class Fields:
         # derivative of the clipped generating cubic: central difference of the exact polynomial
         span = abs(self.c.psi1D[-1] - self.c.psi1D[0])
         h = 1e-6 * span
-        return (self.c.fpol(psi + h) - self.c.fpol(psi - h)) / (2 * h)
+        d = (self.c.fpol(psi + h) - self.c.fpol(psi - h)) / (2 * h)
+        # at the two ends of the profile grid the derivative jumps to zero (hypnotoad holds the profile
+        # constant outside it): no reference value there, e.g. on the separatrix when the profiles end at
+        # normalised psi 1
+        psi = numpy.asarray(psi, dtype=float)
+        edge = numpy.minimum(numpy.abs(psi - self.c.psi1D[0]), numpy.abs(psi - self.c.psi1D[-1])) < 4 * h
+        return numpy.where(edge, numpy.nan, d)
 
     def curl(self, R, Z):
         r = self.ref
